@@ -163,7 +163,7 @@ func fsShare(spec string, b bounds, fse *fsEnv) fsOut {
 			out.Counters["cases_family_"+fam]++
 			if !sampled[fam] && i == 0 {
 				sampled[fam] = true
-				out.Samples = append(out.Samples, map[string]any{"family": fam, "store": st, "case_variants_of_first": caseVariants(st[0]), "queries": res.queries})
+				out.Samples = append(out.Samples, map[string]any{"family": fam, "store": st, "spellings_queried_for_first": storeVariants(st)(st[0]), "rounds_per_query": rounds, "queries": res.queries})
 			}
 			if len(res.fails) == 0 {
 				continue
@@ -323,7 +323,7 @@ func main() {
 	// started when it runs out are skipped and the run is reported as not exhaustive.
 	budget := 75 * time.Second
 	if thorough {
-		budget = 13 * time.Minute
+		budget = 12*time.Minute + 30*time.Second
 	}
 	r.SetDeadline(budget)
 
@@ -392,7 +392,9 @@ func main() {
 		}
 		var evals int64
 		accCount := map[uint32]int64{}
-		firstSample, accSample := false, false
+		// samples: one rejected and one accepted input from one item per family
+		wantSamples := map[string]bool{"N m:t -1": true, "N h/n/m:t 7": true, "W h/n/m/t/x 0": true, "X h/n/m:t 1": true, "D 0": true, "E 0": true, "S short": true, "S 0 7": true, "T 0 7": true}[item]
+		firstSample, accSample := !wantSamples, !wantSamples
 		var bpCalls int64
 		runItem(item, b, func(s string) {
 			evals++
